@@ -27,6 +27,7 @@ Nothing in /repo is edited; instrumentation = instance attributes `_applyCommand
 """
 import pickle
 import random
+import os
 import sys
 import threading
 import traceback
@@ -35,7 +36,7 @@ try:
 except ImportError:                                   # pragma: no cover
     import Queue as _queue
 
-REPO = '/repo'
+REPO = os.environ.get('VERIF_REPO', '/repo')
 if REPO not in sys.path:
     sys.path.insert(0, REPO)
 
